@@ -11,6 +11,7 @@
      encoding-read xDATA (charset)   -> (ok (g0..g255) endpos) | err
      fdselect-enc (fd ...)       -> xBYTES
      fdselect-read nGlyphs nPrivate xDATA -> (ok (fd ...) endpos) | err | panic
+     real-layout neg (d1..dm) l  -> xBYTES   (nibble coding of +-0.d1..dm * 10^l)
    Integer lists may contain (r n v) = n copies of v and (s first n) = first, first+1, ... *)
 
 let outc (f : 'a -> sx) (o : 'a outcome) : sx =
@@ -76,4 +77,6 @@ let () = main_loop (fun c ->
     let data = sx_bytes data in
     outc (fun (l, rest) -> L [A "ok"; L (List.map an l); endpos data rest])
       (m_fdselect_read (sx_n ng) (sx_n np) data)
+  | [A "real-layout"; neg; digits; l] ->
+    hexa (m_real_layout (sx_bool neg) (List.map sx_n (lst digits)) (sx_z l))
   | _ -> failwith "bad case")
